@@ -2,9 +2,9 @@ CFG = {
     "level_text": "Machine-checked Lean 4 theorems over an executable model of external_ip_mapper.go (rule compilation, lookup loop, "
                   "catchAllSpecificity), of the legacy NAT1To1IPs validation, of the option sanitizer and of the four places in gather.go that "
                   "apply a lookup result. For ALL rule lists (any length) and ALL keys: the lookup equals the documented precedence read with "
-                  "two explicitly marked as-coded clauses (C19_lookup_as_coded); it equals the documentation itself outside two decidable, "
-                  "exactly characterised regions (C19_lookup_is_documented_partial; F3 interface-key rank, F15 starved catch-all), and the "
-                  "negation of the full statement is proved on concrete witnesses; modes, family separation and validation are proved in full. "
+                  "one explicitly marked as-coded clause (C19_lookup_as_coded: the F3 rank); it equals the documentation itself outside one decidable, "
+                  "exactly characterised region (C19_lookup_is_documented_partial; F3 interface-key rank; the second region, F15 starved catch-all, went with the fix /repo d6a4f83), and the "
+                  "negation of the full statement is proved on a concrete witness; modes, family separation and validation are proved in full. "
                   "A table of hand-written rule sets cannot cover order x specificity x family x mode for unbounded lists; the theorems do.",
     "level_note": "Tie to the code: differential correspondence of the model with the real newAddressRewriteMapper / findExternalIPs / "
                   "applyHostAddressRewrite / applyHostRewriteForUDPMux / resolveSrflxAddresses / resolveRelayAddresses / "
@@ -13,12 +13,12 @@ CFG = {
                   "mappingForFamily, shouldReplace, hasCandidateType, maybeMarkEmptyMapping and one iteration of addExternalMappings (family "
                   "targeting) proved equal to the model for all arguments. The correspondence is a sample (see rule), not a proof that the model is the code. Trusted: Lean "
                   "kernel, the harness' rendering of abstract addresses as IP literals, net.ParseIP/ParseCIDR/IPNet.Contains behaving as "
-                  "prefix arithmetic. Known findings on the unchanged tree: F3, F15 (F16 fixed in /repo 446b13f).",
+                  "prefix arithmetic. Known findings on the unchanged tree: F3 (F15 fixed in /repo d6a4f83, F16 in 446b13f).",
     "components": [{"component": "rewrite", "session_start": "new", "trivial_regex": r"^(bad-op.*|nomapper)$"}],
     "exhaustive_quick": False,
     "exhaustive_thorough": False,
     "rule": "NOT exhaustive over the stated pools (the full product is ~4e4 single rules, ~1.4e9 pairs). quick: hand-picked boundary "
-            "sessions (F3/F15 witnesses, doc-comment layering, empty lists, nil mapper, IPv4-mapped text; through the public option every empty-External rule of 4 types x 3 modes x {-, Local} x {-, CIDR} x {-, Iface} x 4 network lists alone / before / after a global rule (1152 rule sets) and the same scopes with an External list of blank entries only (768 rule sets)); every 11th rule of the complete "
+            "sessions (F3 witness, the former F15 witness and starved rules — externals all of a family excluded by Networks — of 4 types x 3 modes x {-, Iface} x 4 shapes alone / before / after a global rule / beside the empty rule, direct and through the option (768 rule sets), doc-comment layering, empty lists, nil mapper, IPv4-mapped text; through the public option every empty-External rule of 4 types x 3 modes x {-, Local} x {-, CIDR} x {-, Iface} x 4 network lists alone / before / after a global rule (1152 rule sets) and the same scopes with an External list of blank entries only (768 rule sets)); every 11th rule of the complete "
             "single-rule product (4 types x 3 modes x 3 ifaces x 5 CIDRs x 7 locals x 6 network lists x 5 external lists = 37800) x the whole "
             "key grid (3 types x 6 addresses x 3 ifaces); EVERY ordered pair of a reduced host-rule pool (2 ifaces x 3 CIDRs x 2 locals x "
             "3 network lists x 4 external kinds x 2 modes = 288 rules, 82944 pairs) x 12 keys; 1200 random lists of length 4-6 (1/8: 0-3) over "
